@@ -7,6 +7,7 @@ pub mod env;
 pub mod dest;
 pub mod c02_dso_debug;
 pub mod c03_suspend;
+pub mod c03_stop;
 pub mod c04_registers;
 pub mod c06_stacks;
 pub mod c07_memory_list;
